@@ -18,6 +18,8 @@ import (
 	"fmt"
 	"go/build"
 	"go/parser"
+	"io/ioutil"
+	"os"
 
 	"golang.org/x/tools/go/loader"
 )
@@ -31,19 +33,10 @@ func load(paths []string, stale map[string]bool) (*loader.Program, error) {
 		ParserMode:  parser.ParseComments,
 		AllowErrors: true,
 		FindPackage: func(ctxt *build.Context, importPath, fromDir string, mode build.ImportMode) (*build.Package, error) {
-			bp, err := ctxt.Import(importPath, fromDir, mode)
-			if bp == nil || !stale[importPath] {
-				return bp, err
+			if !stale[importPath] {
+				return ctxt.Import(importPath, fromDir, mode)
 			}
-			bp.GoFiles = without(bp.GoFiles, derivedFilename)
-			if invalid := without(bp.InvalidGoFiles, derivedFilename); len(invalid) < len(bp.InvalidGoFiles) {
-				// the derived file is the only file that go/build could not read, for example the remnant of an interrupted write.
-				bp.InvalidGoFiles = invalid
-				if len(invalid) == 0 {
-					err = nil
-				}
-			}
-			return bp, err
+			return importWithoutDerived(ctxt, importPath, fromDir, mode)
 		},
 	}
 	conf.TypeChecker.Error = func(err error) {}
@@ -64,13 +57,43 @@ func load(paths []string, stale map[string]bool) (*loader.Program, error) {
 	return p, nil
 }
 
-// without returns the names without the name.
-func without(names []string, name string) []string {
-	res := make([]string, 0, len(names))
-	for _, n := range names {
-		if n != name {
-			res = append(res, n)
-		}
+// importWithoutDerived returns what ctxt.Import returns for a package directory that does not contain a derived file.
+// The directory is located first and then read with the derived file hidden, such that the derived file,
+// which could be the remnant of an interrupted write, cannot have any influence on the files, the name or the errors of the package.
+func importWithoutDerived(ctxt *build.Context, importPath, fromDir string, mode build.ImportMode) (*build.Package, error) {
+	found, err := ctxt.Import(importPath, fromDir, mode|build.FindOnly)
+	if err != nil {
+		return found, err
 	}
-	return res
+	hidden := *ctxt
+	hidden.ReadDir = func(dir string) ([]os.FileInfo, error) {
+		var infos []os.FileInfo
+		var err error
+		if ctxt.ReadDir != nil {
+			infos, err = ctxt.ReadDir(dir)
+		} else {
+			infos, err = ioutil.ReadDir(dir)
+		}
+		res := make([]os.FileInfo, 0, len(infos))
+		for _, info := range infos {
+			if info.Name() != derivedFilename {
+				res = append(res, info)
+			}
+		}
+		return res, err
+	}
+	bp, err := hidden.ImportDir(found.Dir, mode)
+	if bp != nil {
+		// only the directory was given, where the package is to be found in the workspace is already known.
+		bp.ImportPath = found.ImportPath
+		bp.Root = found.Root
+		bp.SrcRoot = found.SrcRoot
+		bp.PkgRoot = found.PkgRoot
+		bp.PkgTargetRoot = found.PkgTargetRoot
+		bp.BinDir = found.BinDir
+		bp.Goroot = found.Goroot
+		bp.PkgObj = found.PkgObj
+		bp.ConflictDir = found.ConflictDir
+	}
+	return bp, err
 }
